@@ -74,6 +74,21 @@ fn main() {
         return;
     }
 
+    if let Some(lf) = arg("--lex") {
+        // X <idx> <tokens of the .aasm lexer, blank separated>     (inputs that are valid UTF-8 and short)
+        let text = std::fs::read_to_string(&lf).expect("read");
+        for (idx, line) in text.lines().enumerate() {
+            let t: Vec<&str> = line.split('\t').collect();
+            if t.len() < 3 { continue; }
+            let bytes = unhex(t[2]);
+            if bytes.len() > 20000 { continue; }
+            if let Ok(src) = String::from_utf8(bytes) {
+                let toks = match guarded(move || aelys_bytecode::asm::verif_tokens(&src)) { Ok(v) => v.join(" "), Err(_) => "PANIC".into() };
+                say(format!("X\t{}\t{}", idx, toks));
+            }
+        }
+        return;
+    }
     let file = arg("--file").expect("--file");
     let start = arg_u64("--start", 0) as usize;
     let budget = arg_u64("--budget", 200_000);
